@@ -2,7 +2,7 @@
    Statements only.  OrderedList.v: the ordered list's position search with sentinels and cursor (the double-release
    test lives inside it); InvalidRelease.v: small list tests, LIFO block sources; Stack.v: unwind. *)
 From Coq Require Import ZArith List Bool.
-From FM Require Import OrderedList OrderedListProofs InvalidRelease InvalidReleaseProofs Stack FixedStack.
+From FM Require Import OrderedList OrderedListProofs InvalidRelease InvalidReleaseProofs Stack FixedStack SmallList SmallListProofs.
 Import ListNotations.
 Local Open Scope Z_scope.
 
@@ -46,6 +46,31 @@ Theorem C16_small_valid_release_is_accepted : forall ptr dbl l p c,
   exists l', s_dealloc ptr dbl l p = SmOk l'.
 Proof. exact small_valid_accepted. Qed.
 Print Assumptions C16_small_valid_release_is_accepted.
+
+(* ... and the same for deallocate as the code runs it (SmallList.sm_deallocate: the chunk is searched for at the deallocation
+   cursor, at the allocation cursor, then in the half of the address-ordered chunk ring on the pointer's side of the cursor,
+   inwards from both ends).  base is the address of the list object; chunks are sorted and disjoint (SmInv).
+   A pointer that lies in no chunk: the search ends -- it never runs round the ring for ever -- and the release is reported
+   (the unreachable-code abort when the pointer is exactly the address of the cursor's chunk header); nothing is changed. *)
+Theorem C16_small_list_search_reports_foreign_pointer : forall base dbl l p, SmInv l -> (forall c, In c (sm_chunks l) -> c_from (sm_ns l) c p = false) ->
+  sm_deallocate base true dbl l p = if pos_addr base l (sm_dc l) =? p then MAbort else MReported.
+Proof. exact sm_deallocate_foreign. Qed.
+Print Assumptions C16_small_list_search_reports_foreign_pointer.
+
+(* a pointer inside a chunk but between node boundaries, or a node that is already on a free chain, is reported *)
+Theorem C16_small_list_search_reports_bad_node : forall base l p j c, SmInv l -> nth_error (sm_chunks l) j = Some c -> c_from (sm_ns l) c p = true ->
+  (forall e, In e (sm_chunks l) -> c_from (sm_ns l) e base = false) ->
+  ((p - c_mem c) mod sm_ns l <> 0 -> forall dbl, sm_deallocate base true dbl l p = MReported) /\
+  (In p (free_addrs (sm_ns l) (sm_chunks l)) -> sm_deallocate base true true l p = MReported).
+Proof. exact sm_deallocate_bad_node. Qed.
+Print Assumptions C16_small_list_search_reports_bad_node.
+
+(* a valid release is never reported: the search finds the node's chunk wherever the cursors are, in every configuration *)
+Theorem C16_small_list_search_accepts_valid_release : forall base pc dbl l p c, SmInv l -> In c (sm_chunks l) -> c_from (sm_ns l) c p = true ->
+  (p - c_mem c) mod sm_ns l = 0 -> ~ In p (free_addrs (sm_ns l) (sm_chunks l)) -> (forall e, In e (sm_chunks l) -> c_from (sm_ns l) e base = false) ->
+  exists l', sm_deallocate base pc dbl l p = MOk l' /\ sm_dealloc l p = Some l'.
+Proof. exact sm_deallocate_valid. Qed.
+Print Assumptions C16_small_list_search_accepts_valid_release.
 
 (* ---- LIFO-only block sources ---- *)
 Theorem C16_static_source_out_of_order_reported : forall base bs k i, 0 < bs -> 0 <= i -> i < k - 1 ->
